@@ -6,6 +6,8 @@ package cmd
 
 import (
 	"bytes"
+	"os"
+	"path"
 	"regexp"
 
 	"github.com/coreruleset/crs-toolchain/v2/regex"
@@ -346,14 +348,14 @@ func SpecSetLine(lines [][]byte, t int, v []byte) [][]byte {
 	return out
 }
 
-//@ lemma LemmaFirstId
-//@   tags C11 C12
-//@   requires 0 <= i
-//@   decreases len(lines) - i
-//@   ensures i <= SpecFirstId(ruleId, lines, i) || SpecFirstId(ruleId, lines, i) == len(lines)
-//@   ensures SpecFirstId(ruleId, lines, i) <= len(lines)
-//@   ensures implies(SpecFirstId(ruleId, lines, i) < len(lines), SpecIsIdLine(ruleId, lines[SpecFirstId(ruleId, lines, i)]))
-//@   ensures forall(i, SpecFirstId(ruleId, lines, i), func(j int) bool { return !SpecIsIdLine(ruleId, lines[j]) })
+// @ lemma LemmaFirstId
+// @   tags C11 C12
+// @   requires 0 <= i
+// @   decreases len(lines) - i
+// @   ensures i <= SpecFirstId(ruleId, lines, i) || SpecFirstId(ruleId, lines, i) == len(lines)
+// @   ensures SpecFirstId(ruleId, lines, i) <= len(lines)
+// @   ensures implies(SpecFirstId(ruleId, lines, i) < len(lines), SpecIsIdLine(ruleId, lines[SpecFirstId(ruleId, lines, i)]))
+// @   ensures forall(i, SpecFirstId(ruleId, lines, i), func(j int) bool { return !SpecIsIdLine(ruleId, lines[j]) })
 func LemmaFirstId(ruleId string, lines [][]byte, i int) {
 	if i >= len(lines) {
 		return
@@ -424,3 +426,54 @@ func LemmaFirstId(ruleId string, lines [][]byte, i int) {
 //@   ensures[C18] offset: implies(err == nil, ruleValues.chainOffset == ite(len(reGroup(regex.RuleIdFileNameRegex, idAndChainOffset, 2)) == 0, 0, utils.OpaqueDec(reGroup(regex.RuleIdFileNameRegex, idAndChainOffset, 2))))
 //@   ensures[C18] file-name: implies(err == nil, ruleValues.fileName == ite(utils.SpecHasSuffix(reGroup(regex.RuleIdFileNameRegex, idAndChainOffset, 0), ".ra"), reGroup(regex.RuleIdFileNameRegex, idAndChainOffset, 0), reGroup(regex.RuleIdFileNameRegex, idAndChainOffset, 0)+".ra"))
 //@   ensures[C18,C16] failure-keeps-values: implies(err != nil, ruleValues.id == old(ruleValues.id) && ruleValues.fileName == old(ruleValues.fileName) && ruleValues.chainOffset == old(ruleValues.chainOffset))
+
+// ---- CRS root resolution (C18) ---------------------------------------------------------
+
+func OpaqueExists(name string) bool      { _, err := os.Stat(name); return err == nil }
+func OpaquePathJoin2(a, b string) string { return path.Join(a, b) }
+func OpaquePathDir(p string) string      { return path.Dir(p) }
+
+//@ extern os.Stat
+//@   params name
+//@   results fi err
+//@   ensures (err == nil) == OpaqueExists(name)
+
+//@ extern path.Join/1
+//@   params a
+//@   results r
+//@   ensures implies(a == "regex-assembly", r == "regex-assembly")
+
+//@ extern path.Join/2
+//@   params a b
+//@   results r
+//@   ensures r == OpaquePathJoin2(a, b)
+
+// path.Dir of an absolute path that does not end in a separator is a strictly shorter
+// absolute path.
+//@ extern path.Dir
+//@   params p
+//@   results r
+//@   ensures r == OpaquePathDir(p)
+//@   ensures implies(len(p) > 0 && p[0] == '/' && p[len(p)-1] != '/', len(r) >= 1 && len(r) < len(p) && r[0] == '/')
+
+// SpecRoot: the nearest ancestor-or-self of start that contains regex-assembly; "" when
+// the search reaches a path ending in the separator (the file-system root).
+func SpecRoot(start string) string {
+	if len(start) == 0 || start[len(start)-1] == '/' {
+		return ""
+	}
+	if OpaqueExists(OpaquePathJoin2(start, "regex-assembly")) {
+		return start
+	}
+	return SpecRoot(OpaquePathDir(start))
+}
+
+//@ contract findRootDirectory
+//@   tags C18
+//@   opt termination C18 C19
+//@   results root err
+//@   requires absolute: len(startPath) > 0 && startPath[0] == '/'
+//@   ensures nearest-root: implies(err == nil, root == SpecRoot(startPath) && len(root) > 0)
+//@   ensures none-found: implies(err != nil, SpecRoot(startPath) == "")
+//@   loop 0 invariant len(currentPath) > 0 && currentPath[0] == '/' && SpecRoot(startPath) == SpecRoot(currentPath)
+//@   loop 0 decreases len(currentPath)
